@@ -2,6 +2,7 @@ package main
 
 import (
 	"go/ast"
+	"go/constant"
 	"go/token"
 	"go/types"
 	"sort"
@@ -78,8 +79,15 @@ func c20Lines(c *Check) {
 		}
 		return false, false
 	})
+	// the same world for comparisons written as `switch ch { case '\\': … }`
+	chWorld := r.F.ValueWorld(func(e ast.Expr) (constant.Value, bool) {
+		if id, ok := ast.Unparen(e).(*ast.Ident); ok && objOf(info, id) == ch {
+			return constant.MakeInt64(10), true
+		}
+		return nil, false
+	})
 	next := func(pt Pt) bool { return pt == readPt || r.F.IsExitPt(pt) }
-	path, f := r.F.Reach(Query{From: []Pt{readPt}, Target: next, Avoid: inc, AvoidEdge: world, NoCorr: true})
+	path, f := r.F.Reach(Query{From: []Pt{readPt}, Target: next, Avoid: inc, AvoidEdge: orEdge(world, chWorld), NoCorr: true})
 	c.Hold("R6", "lexer.next:line-feed-counted", r.FI.Decl.Pos(), !f, "a line feed can be consumed without incrementing the line counter (e.g. after a backslash inside quotes): later tokens carry a line number that is too small and the dispenser joins or splits directives wrongly: "+r.F.Describe(path))
 }
 
